@@ -60,7 +60,7 @@ def cmd_import(wt, rid):
 
 
 def cmd_check(i, suite=False):
-    d = scratch('r-' + i)
+    d = scratch('r-%s-%d' % (i, os.getpid()))
     try:
         rca, outa = sh('git apply %s' % os.path.join(ROOT, i, 'patch.diff'), cwd=d)
         if rca:
